@@ -117,7 +117,7 @@ fn escapes(report: &Report, k: u32, mode: u8) {
     let cases = case_variants();
     let parser = cfgs::parser(Config::Stdlib);
     let chars = ["<", ">", "&", "\"", "'", ";", "#", "a", "l", "t", "m", "p", " ", "é", "g", "q", "u", "o", "3", "9"];
-    let toks = ["&amp;", "&lt;", "&gt;", "&#39;", "&quot;", "&", "<", ">", "\"", "'", ";", "amp", "lt", "#39", "quot", "a", "é", "&am", "&#3", "&quo"];
+    let toks = ["&amp;", "&lt;", "&gt;", "&#39;", "&quot;", "&", "<", ">", "\"", "'", ";", "amp", "lt", "#39", "quot", "a", "é", "&am", "&#3", "&quo", "€", "👍"];
     let case_refs: Vec<&str> = cases.iter().map(|s| s.as_str()).collect();
     let alpha: &[&str] = match mode {
         1 => &toks,
